@@ -115,6 +115,9 @@ pub fn install_panic_hook() {
         } else {
             "panic".to_string()
         };
+        if std::env::var("SMTMON_BACKTRACE").is_ok() {
+            eprintln!("panic: {} @ {}\n{}", msg, loc, std::backtrace::Backtrace::force_capture());
+        }
         LAST_PANIC.with(|p| *p.borrow_mut() = format!("{} @ {}", msg, loc));
     }));
 }
